@@ -27,6 +27,7 @@ func NewScheduler(r runner.Runner) *Scheduler {
 		pause:      50 * time.Millisecond,
 		taskRunner: r,
 	}
+	verifInit(s)
 
 	return s
 }
